@@ -197,6 +197,64 @@ fn twin_op(rng: &mut StdRng, d: &Driver, w: usize) -> Value {
     }
 }
 
+/// After `b` was copied from `a`: operations that leave both worlds with the SAME tables, columns,
+/// slots and free list, but with the rows of one table bound to the identifiers in a different
+/// order: in `a` the entity of the first row of a table leaves and re-enters it (add + remove of a
+/// component it lacks: it comes back as the last row, the former last row took its place), in `b`
+/// the entity of the last row does the same (row order unchanged) and the two entities exchange
+/// their values.  The worlds then differ (two entities carry each other's values) although every
+/// column compares equal position by position: `==` has to notice through the identifier column.
+fn permuted_pair(d: &mut Driver, a: usize, b: usize) -> Vec<Value> {
+    let mut ops = Vec::new();
+    let s = d.ws[a - 1].as_mut().unwrap();
+    let dump = s.world.verif_dump();
+    let (ents, _) = brood_verif_harness::content(&mut s.world);
+    let ord = |s: &brood_verif_harness::Slot, p: (usize, u64)| -> Option<usize> {
+        s.issued.iter().position(|i| brood::verif::id_parts(*i) == p).map(|k| k + 1)
+    };
+    for t in dump.tables.iter() {
+        if t.len < 2 {
+            continue;
+        }
+        let mut bits = 0u64;
+        for (k, by) in t.bytes.iter().enumerate() {
+            bits |= (*by as u64) << (8 * k);
+        }
+        // a component the table lacks (to leave and re-enter through), at least one valued component
+        let lacks = (1..comps::NC).find(|c| (bits >> c) & 1 == 0);
+        let valued: Vec<usize> = (1..comps::NC).filter(|c| (bits >> c) & 1 == 1).collect();
+        let (first, last) = (t.ids[0], t.ids[t.len - 1]);
+        let (Some(lack), Some(kf), Some(kl)) = (lacks, ord(s, first), ord(s, last)) else { continue };
+        if valued.is_empty() {
+            continue;
+        }
+        let key = |p: (usize, u64)| format!("{}.{}", p.0, p.1);
+        let (Some(ef), Some(el)) = (ents.get(&key(first)), ents.get(&key(last))) else { continue };
+        let mut differ = false;
+        let mut swaps = Vec::new();
+        for c in valued.iter() {
+            let n = comps::COMP_NAMES[*c];
+            let (vf, vl) = (ef[n]["v"].as_u64().unwrap_or(0), el[n]["v"].as_u64().unwrap_or(0));
+            differ |= vf != vl;
+            swaps.push(json!({"op": "add", "w": b, "e": {"k": kf}, "c": c, "v": vl}));
+            swaps.push(json!({"op": "add", "w": b, "e": {"k": kl}, "c": c, "v": vf}));
+        }
+        if !differ {
+            continue;
+        }
+        ops.push(json!({"op": "add", "w": a, "e": {"k": kf}, "c": lack, "v": 5}));
+        ops.push(json!({"op": "remc", "w": a, "e": {"k": kf}, "c": lack}));
+        ops.push(json!({"op": "add", "w": b, "e": {"k": kl}, "c": lack, "v": 5}));
+        ops.push(json!({"op": "remc", "w": b, "e": {"k": kl}, "c": lack}));
+        ops.extend(swaps);
+        break;
+    }
+    // the look at the world above is not part of any recorded operation
+    comps::drain_ledger();
+    heap::drain();
+    ops
+}
+
 fn main() {
     let args: Vec<String> = std::env::args().collect();
     std::panic::set_hook(Box::new(|_| {})); // panics are data; keep stderr quiet
@@ -275,7 +333,20 @@ fn main() {
                     }
                     // lock-step twins: right after a copy, mirror a burst of operations on both worlds
                     let name = op["op"].as_str().unwrap();
-                    if (name == "clone" || name == "serde") && pending.is_empty() && rng.gen_bool(0.75) {
+                    let after_copy = (name == "clone" || name == "serde") && pending.is_empty();
+                    let roll = if after_copy { rng.gen_range(0..100) } else { 100 };
+                    if after_copy && roll >= 65 && roll < 85 {
+                        // near-miss pair for equality: the same columns in both worlds, but bound to the
+                        // entity identifiers in a different order (see permuted_pair)
+                        let a = op["w"].as_u64().unwrap() as usize;
+                        let b = op["dst"].as_u64().unwrap() as usize;
+                        if d.ws[b - 1].is_some() {
+                            for o in permuted_pair(&mut d, a, b) {
+                                pending.push_back(o);
+                            }
+                        }
+                    }
+                    if after_copy && roll < 65 {
                         let a = op["w"].as_u64().unwrap() as usize;
                         let b = op["dst"].as_u64().unwrap() as usize;
                         if d.ws[b - 1].is_some() {
